@@ -35,6 +35,11 @@ func forall(lo, hi int, f func(int) bool) bool {
 //@   ensures cl.checkpoints[old(len(cl.checkpoints))].ID == ckptID && cl.checkpoints[old(len(cl.checkpoints))].Levels == ll && cl.checkpoints[old(len(cl.checkpoints))].LastSeqNum == lastSeqNum
 //@   ensures len(cl.checkpoints[old(len(cl.checkpoints))].WALs) == 1
 //@   ensures ckptIndexed(cl.checkpoints[old(len(cl.checkpoints))])
+//@   loop 0:
+//@     invariant forall(0, idx_, func(i int) bool { return forall(0, len(ll.levels[i].tables.l), func(j int) bool { return has(tableURISet, sst.ghostTableURI(ll.levels[i].tables.l[j])) }) })
+//@   loop 1:
+//@     invariant forall(0, idx0_, func(i int) bool { return forall(0, len(ll.levels[i].tables.l), func(j int) bool { return has(tableURISet, sst.ghostTableURI(ll.levels[i].tables.l[j])) }) })
+//@     invariant forall(0, idx_, func(j int) bool { return has(tableURISet, sst.ghostTableURI(level.tables.l[j])) })
 
 // IncludesTable: true iff some retained checkpoint's index holds the URI.
 //@ func CheckpointList.IncludesTable
